@@ -1,5 +1,6 @@
 #include "idl_theory.h"
 #include "idl_value_listener.h"
+#include "verif_hooks.h"
 #include <algorithm>
 #include <stdexcept>
 #include <cassert>
@@ -41,6 +42,7 @@ namespace smt
 
     SMT_EXPORT lit idl_theory::new_distance(const var &from, const var &to, const I &dist) noexcept
     {
+        ORATIO_VERIF_WRAP(new_distance(from, to, dist), def_dist(this, false, from, to, inf_rational(dist), vr_));
         if (_dists[to][from] < -dist)
             return FALSE_lit; // the constraint is inconsistent..
         else if (_dists[from][to] <= dist)
@@ -59,6 +61,7 @@ namespace smt
 
     SMT_EXPORT lit idl_theory::new_lt(const lin &left, const lin &right)
     {
+        ORATIO_VERIF_WRAP(new_lt(left, right), def_dl(this, false, "lt", left, right, vr_));
         lin expr = left - right;
         switch (expr.vars.size())
         {
@@ -109,6 +112,7 @@ namespace smt
 
     SMT_EXPORT lit idl_theory::new_leq(const lin &left, const lin &right)
     {
+        ORATIO_VERIF_WRAP(new_leq(left, right), def_dl(this, false, "leq", left, right, vr_));
         lin expr = left - right;
         switch (expr.vars.size())
         {
@@ -159,6 +163,7 @@ namespace smt
 
     SMT_EXPORT lit idl_theory::new_eq(const lin &left, const lin &right)
     {
+        ORATIO_VERIF_WRAP(new_eq(left, right), def_dl(this, false, "eq", left, right, vr_));
         lin expr = left - right;
         switch (expr.vars.size())
         {
@@ -197,6 +202,7 @@ namespace smt
 
     SMT_EXPORT lit idl_theory::new_geq(const lin &left, const lin &right)
     {
+        ORATIO_VERIF_WRAP(new_geq(left, right), def_dl(this, false, "geq", left, right, vr_));
         lin expr = left - right;
         switch (expr.vars.size())
         {
@@ -247,6 +253,7 @@ namespace smt
 
     lit idl_theory::new_gt(const lin &left, const lin &right)
     {
+        ORATIO_VERIF_WRAP(new_gt(left, right), def_dl(this, false, "gt", left, right, vr_));
         lin expr = left - right;
         switch (expr.vars.size())
         {
